@@ -37,11 +37,19 @@ PERMUTATIONS = STABLE_SORTS | UNSTABLE_SORTS | {"reverse", "rotate_left", "rotat
 NEUTRAL_VEC = {"deref", "deref_mut", "iter", "len", "is_empty", "as_slice", "as_mut_slice", "as_mut", "as_ref", "index"}
 
 
+ELEM = {"row": False}     # True when the printed vector holds plain `&Plane` (the (key, row) pairs were projected before the -o sorts)
+
+
 def classify_key(e, elem_arg=2):
     """-> (field, direction, quality, why).  quality: embed | weak | lossy | unknown"""
     k = e[0]
     if k == "arg" and e[1] == elem_arg:
-        path = e[2]
+        path = tuple(p_ for p_ in e[2] if p_ != "deref")
+        if ELEM["row"]:
+            # element is &Plane: path (field, ...) = row field
+            if len(path) >= 1 and isinstance(path[0], str):
+                return (path[0], +1, "embed" if len(path) == 1 else "partial", "component %s" % (path[1:],) if len(path) > 1 else "")
+            return (None, 0, "unknown", "unrecognised element path %s" % (path,))
         # element is (&u32, &Plane): path (0,) = key, (1, field...) = row field
         if path == (0,):
             return ("<address>", +1, "embed", "")
@@ -102,7 +110,74 @@ def classify_cmp(e):
     return (None, 0, "unknown", "comparator %s" % show(e))
 
 
-def sort_call_info(facts, body, du, t):
+def _arm_expr(facts, callee, argpos, variant):
+    """expression of `callee`'s return value on the arm its `match <parameter argpos>` takes for enum variant `variant`"""
+    cb = facts.bodies.get(callee)
+    if cb is None:
+        return None
+    cdu = DefUse(cb)
+    ccfg = CFG(cb)
+    pty = cb.locals[argpos]["ty"]["s"].lstrip("&").replace("mut ", "")
+    info = facts.adts.get(pty)
+    if not info or info["kind"] != "enum":
+        return None
+    names = [v["name"] for v in info["variants"]]
+    if variant not in names:
+        return None
+    vidx = names.index(variant)
+    for bi in sorted(ccfg.reach):
+        t = cb.blocks[bi]["term"]
+        if t["k"] != "switch":
+            continue
+        e = expr(cdu, t["discr"])
+        if not (e[0] == "discr" and e[1][0] == "arg" and e[1][1] == argpos and not [p_ for p_ in e[1][2] if p_ != "deref"]):
+            continue
+        tgt = t["otherwise"]
+        for val, b2 in t["targets"]:
+            if int(val) == vidx:
+                tgt = b2
+        # the definition of _0 in the blocks dominated by that arm
+        defs = []
+        for bj in sorted(ccfg.reach):
+            if not ccfg.dominates(tgt, bj):
+                continue
+            blk = cb.blocks[bj]
+            for st_ in blk["stmts"]:
+                if st_["k"] == "assign" and st_["place"]["local"] == 0 and not st_["place"]["proj"]:
+                    defs.append(("stmt", st_))
+            tt = blk["term"]
+            if tt["k"] == "call" and tt["dest"]["local"] == 0 and not tt["dest"]["proj"]:
+                defs.append(("call", tt))
+        if len(defs) != 1:
+            return None
+        kind, node = defs[0]
+        if kind == "call":
+            return ("call", callee_name(node), tuple(expr(cdu, a) for a in node["args"]))
+        rv = node["rv"]
+        if rv["k"] == "use":
+            return expr(cdu, rv["x"])
+        return None
+    return None
+
+
+def _specialise(facts, ret, caps):
+    """comparator / key closure that dispatches on a captured enum value (`column.compare(a, b)` with `match self`): replace the
+    call by the arm taken for the value the abstract run saw in the capture"""
+    from ..mirq import _subst_args, inline_expr
+    if not (isinstance(ret, tuple) and ret and ret[0] == "call" and ret[1] in facts.bodies):
+        return ret
+    for i, a in enumerate(ret[2]):
+        base = a
+        while base[0] == "path":
+            base = base[1]
+        if base[0] == "capture" and base[1].lstrip("*&") in caps:
+            ae = _arm_expr(facts, ret[1], i + 1, caps[base[1].lstrip("*&")])
+            if ae is not None:
+                return inline_expr(facts, _subst_args(ae, ret[2]))
+    return ret
+
+
+def sort_call_info(facts, body, du, t, caps=None):
     """for a sort* call: (method, field, dir, quality, why)"""
     m = t["callee"].get("name")
     if m == "sort":
@@ -121,6 +196,8 @@ def sort_call_info(facts, body, du, t):
     cdu = DefUse(cb)
     from ..mirq import inline_expr
     ret = inline_expr(facts, expr_place(cdu, {"local": 0, "proj": []}))
+    if caps:
+        ret = _specialise(facts, ret, caps)
     if m in ("sort_by", "sort_unstable_by"):
         f, d, q, w = classify_cmp(ret)
     else:
@@ -186,12 +263,20 @@ def run(facts, rep, tier):
             cur = t["args"][0]
             r = du.root(cur)
             names = []
+            from_table = False
+            direct = True
             while r[0] == "call":
                 names.append(r[1]["callee"].get("name"))
+                cc = r[1]["callee"]
+                if cc.get("name") == "iter" and "HashMap" in (cc.get("path") or "") and "Plane" in " ".join(cc.get("generic_args") or []):
+                    from_table = True
+                    break
+                if cc.get("name") == "collect":
+                    direct = False          # fed by another collected vector, not by the table itself
                 if not r[1]["args"]:
                     break
                 r = du.root(r[1]["args"][0])
-            if "iter" in names:
+            if from_table and direct and vec is None:
                 vec = t["dest"]["local"]
                 bad = [n for n in names if n not in ("iter", "deref", "into_iter", "read", "expect", "unwrap", "map", "cloned", "copied")]
                 rep.oblige(not bad, ("collect-pipe",))
@@ -202,6 +287,48 @@ def run(facts, rep, tier):
                                     span_loc(t.get("span"))))
     if vec is None:
         raise Broken("C15 anchor: no collect() of the table iterator")
+
+    # the (key, row) pairs may be projected to plain rows once the address sort is done:
+    #     let rows: Vec<&Plane> = keyed.into_iter().map(|(_, plane)| plane).collect();
+    # a collect fed only by into_iter/iter + map(closure returning one component of its argument) of the first vector keeps
+    # every element, once, in order: the new vector continues the old one
+    vec2 = None
+    ELEM["row"] = False
+    for bb, t in pb.calls():
+        if t["callee"].get("name") != "collect" or t["dest"]["local"] == vec:
+            continue
+        names = []
+        maps = []
+        r = du.root(t["args"][0])
+        src_local = None
+        while r[0] == "call":
+            names.append(r[1]["callee"].get("name"))
+            if r[1]["callee"].get("name") == "map":
+                maps.append(r[1])
+            if not r[1]["args"]:
+                break
+            pl0 = operand_place(r[1]["args"][0])
+            if pl0 is not None and _rooted_at(du, pl0, vec):
+                src_local = vec
+                break
+            r = du.root(r[1]["args"][0])
+        if src_local != vec or any(n not in ("map", "into_iter", "iter", "copied", "cloned") for n in names) or len(maps) != 1:
+            continue
+        mr = du.root(maps[0]["args"][1])
+        if not (mr[0] == "rv" and mr[1]["rv"].get("agg") == "closure"):
+            continue
+        mcb = facts.bodies[mr[1]["rv"]["closure"]]
+        mret = expr_place(DefUse(mcb), {"local": 0, "proj": []})
+        proj_ok = mret[0] == "arg" and mret[1] == 2 and tuple(p_ for p_ in mret[2] if p_ != "deref") in ((1,), (0,))
+        rep.oblige(proj_ok, ("re-collect",))
+        if not proj_ok:
+            rep.add(Finding("R15.1", "%s : rows rebuilt through %s" % (pb.name, show(mret)[:60]),
+                            "the row list is rebuilt by a map that is not a plain projection of each (address, row) pair", span_loc(t.get("span"))))
+            continue
+        if tuple(p_ for p_ in mret[2] if p_ != "deref") == (1,):
+            vec2 = t["dest"]["local"]
+            ELEM["row"] = True
+    vec_locals = [vec] + ([vec2] if vec2 is not None else [])
 
     def uses_vec(op):
         pl = operand_place(op)
@@ -216,20 +343,25 @@ def run(facts, rep, tier):
     addr_sort_bb = None
     print_iter_bb = None
     for bb, t in sorted(pb.calls()):
-        args_with_vec = [i for i, a in enumerate(t["args"]) if _rooted_at(du, operand_place(a), vec)]
+        args_with_vec = [i for i, a in enumerate(t["args"]) if any(_rooted_at(du, operand_place(a), v_) for v_ in vec_locals)]
         if not args_with_vec:
             continue
         name = t["callee"].get("name")
         tgt = callee_name(t)
         n15 += 1
+        if vec2 is not None and name == "into_iter" and _rooted_at(du, operand_place(t["args"][0]), vec) and bb != print_iter_bb:
+            # the hand-over from the (key, row) vector to the row vector (checked above)
+            if not any(_rooted_at(du, operand_place(a), vec2) for a in t["args"]):
+                continue
         if tgt in facts.bodies:
             sort_fn_calls.append((bb, t, tgt))
             continue
         if name in NEUTRAL_VEC or name == "into_iter":
-            if name in ("iter", "into_iter"):
+            if name in ("iter", "into_iter") and (vec2 is None or any(_rooted_at(du, operand_place(a), vec2) for a in t["args"])):
                 print_iter_bb = bb            # the printing pass (iter() for a fold, into_iter(&rows) for a `for` loop)
             continue
         if name in PERMUTATIONS:
+            ELEM["row"] = vec2 is not None and any(_rooted_at(du, operand_place(a), vec2) for a in t["args"])
             info = sort_call_info(facts, pb, du, t) if name in STABLE_SORTS | UNSTABLE_SORTS else None
             if info and info[1] == "<address>" and info[3] == "embed" and info[2] == +1 and addr_sort_bb is None:
                 addr_sort_bb = bb
@@ -282,8 +414,9 @@ def run(facts, rep, tier):
     scfg = CFG(sb)
     vparam = None
     for i, a in enumerate(st["args"]):
-        if _rooted_at(du, operand_place(a), vec):
+        if any(_rooted_at(du, operand_place(a), v_) for v_ in vec_locals):
             vparam = i + 1
+            ELEM["row"] = vec2 is not None and _rooted_at(du, operand_place(a), vec2)
     # inside: every use of the vector param must be a permutation
     for bb, t in sb.calls():
         if any(_rooted_at_arg(sdu, operand_place(a), vparam) for a in t["args"]):
@@ -346,7 +479,7 @@ def run(facts, rep, tier):
             rep.oblige(False, ("letter", ch))
             rep.add(Finding("R15.3", "%s : letter %s has %d sorts" % (sb.name, ch, len(sorts)), "-o letter %r: expected one sort" % ch, sb.loc()))
             continue
-        m, f, d, q, why = sort_call_info(facts, sorts[0][0], DefUse(sorts[0][0]), sorts[0][1])
+        m, f, d, q, why = sort_call_info(facts, sorts[0][0], DefUse(sorts[0][0]), sorts[0][1], arms[ch][2][arms[ch][0].index(sorts[0])] if len(arms[ch]) > 2 else None)
         if len(revs) % 2 == 1:
             d = -d
         dirs[ch] = d
@@ -443,11 +576,16 @@ def _letter_traces(facts, sb, vparam):
         I, v, st = K3.run_fn(facts, sb.name, build, "C15 -o %s" % text)
         if st is None:
             raise Broken("C15: the sort function cannot be followed for -o %s" % text)
+        bad = sorted({w[1] for w in I.warnings if w[0] in ("unmodelled", "switch")})
+        if bad and not I.trace:
+            raise Broken("C15: the sort function cannot be followed for -o %s (%s)" % (text, bad[:2]))
+        last_caps[0] = list(I.trace_caps)
         return list(I.trace)
+    last_caps = [[]]
     arms = {}
     for code in range(33, 127):
         ch = chr(code)
         tr = trace_of(ch)
         if tr:
-            arms[ch] = ([(facts.bodies[bn], facts.bodies[bn].blocks[bb]["term"]) for bn, bb in tr], tr)
+            arms[ch] = ([(facts.bodies[bn], facts.bodies[bn].blocks[bb]["term"]) for bn, bb in tr], tr, list(last_caps[0]))
     return arms, trace_of
